@@ -168,8 +168,8 @@ EXPORT int swprintf_s(wchar_t *restrict dest, rsize_t dmax,
     }*/
 
 #if defined(HAVE_WCSSTR) || !defined(SAFECLIB_DISABLE_EXTENSIONS)
-    if (unlikely((p = wcsstr((wchar_t *)fmt, L"%n")))) {
-        if ((p - fmt == 0) || *(p - 1) != L'%') {
+    if (unlikely((p = safec_find_percent_wn(fmt)))) {
+        { /* any n conversion, whatever flags, width or length modifier */
             invoke_safe_str_constraint_handler("swprintf_s: illegal %n",
                                                (void *)dest, EINVAL);
             return -(EINVAL);
